@@ -66,3 +66,18 @@ Proof.
   exact (run_total grule blots_grammar all_grules grule_index blots_nl blots_C blots_dz
                    all_grules_complete blots_term_cert).
 Qed.
+
+(* the certificate check does refuse a left-recursive grammar (whatever budgets are offered) and a nullable
+   repetition body *)
+Lemma cert_refuses_left_recursion : forall C d,
+  term_cert (mkgrammar (fun _ : unit => mkdef MNormal false (Seq (Ident tt) (Str "x"))) None None) [tt] (fun _ => 0%N)
+            [] C (fun _ => d) = false.
+Proof.
+  intros C d. unfold term_cert. cbn. destruct C; [reflexivity|]. cbn.
+  destruct d as [|[|m]]; [reflexivity|reflexivity|].
+  replace (Nat.leb (S (S m)) m) with false; [reflexivity|]. symmetry. apply Nat.leb_gt. lia.
+Qed.
+Lemma cert_refuses_nullable_repetition : forall nl C dz,
+  term_cert (mkgrammar (fun _ : unit => mkdef MNormal false (Rep (Opt (Str "x")))) None None) [tt] (fun _ => 0%N)
+            nl C dz = false.
+Proof. intros nl C dz. unfold term_cert. cbn. rewrite !andb_false_r. reflexivity. Qed.
